@@ -333,17 +333,19 @@ impl<'a> Rw<'a> {
     }
 }
 
+fn is_plain_literal(e: &Expr) -> bool {
+    // immutable values only: a string literal yields a fresh object per evaluation, a variable does not
+    matches!(e, Expr::Int { .. } | Expr::Float { .. } | Expr::Bool { .. })
+}
+
+/// sites of T2: every int / float / bool literal in expression position (operand, array element, argument, index,
+/// condition, initialiser, returned or assigned value, statement)
 fn int_operand_sites(prog: &BlockStmt) -> usize {
     let mut n = 0;
     let mut rw = Rw {
         on_expr: &mut |e, _| {
-            if let Expr::Infix { left, right, .. } = e {
-                if matches!(**left, Expr::Int { .. }) {
-                    n += 1;
-                }
-                if matches!(**right, Expr::Int { .. }) {
-                    n += 1;
-                }
+            if is_plain_literal(e) {
+                n += 1;
             }
             None
         },
@@ -352,7 +354,7 @@ fn int_operand_sites(prog: &BlockStmt) -> usize {
     n
 }
 
-/// T2: the `k`-th integer literal operand becomes a fresh variable declared at the start of the enclosing unit
+/// T2: the `k`-th literal becomes a fresh variable declared at the start of the enclosing unit
 pub fn t2_literal_to_variable(prog: &BlockStmt, k: usize, fresh: &str) -> Option<BlockStmt> {
     if int_operand_sites(prog) == 0 {
         return None;
@@ -363,37 +365,19 @@ pub fn t2_literal_to_variable(prog: &BlockStmt, k: usize, fresh: &str) -> Option
     let out = {
         let mut rw = Rw {
             on_expr: &mut |e, pending| {
-                if done {
+                if !is_plain_literal(e) {
                     return None;
                 }
-                if let Expr::Infix { left, operator, right } = e {
-                    let mut l = (**left).clone();
-                    let mut r = (**right).clone();
-                    let mut hit = false;
-                    if let Expr::Int { value } = l {
-                        if seen == k {
-                            pending.push(Stmt::Let(fresh.clone(), Expr::Int { value }));
-                            l = Expr::Identifier(fresh.clone());
-                            hit = true;
-                        }
-                        seen += 1;
-                    }
-                    if !hit {
-                        if let Expr::Int { value } = r {
-                            if seen == k {
-                                pending.push(Stmt::Let(fresh.clone(), Expr::Int { value }));
-                                r = Expr::Identifier(fresh.clone());
-                                hit = true;
-                            }
-                            seen += 1;
-                        }
-                    }
-                    if hit {
-                        done = true;
-                        return Some(Expr::Infix { left: Box::new(l), operator: *operator, right: Box::new(r) });
-                    }
+                let hit = !done && seen == k;
+                seen += 1;
+                if hit {
+                    done = true;
+                    pending.push(Stmt::Let(fresh.clone(), e.clone()));
+                    Some(Expr::Identifier(fresh.clone()))
+                } else {
+                    // a literal has nothing below it
+                    Some(e.clone())
                 }
-                None
             },
         };
         rw.unit(prog)
